@@ -11,7 +11,7 @@ import (
 
 func init() {
 	register("C05", propMeta{
-		Explanation: "E-PROV + E-GUARD + E-OWN on the server's carrier path. O-1 one identity per carrier: in turbotunnelMode the address given to QueueIncoming, the argument of OutgoingQueue and the key of clientIDAddrMap.Set all load from one local ClientID whose only writer is io.ReadFull(conn, clientID[:]), and all are reachable only through that read's err == nil edge; the packets queued are the results of encapsulation.ReadData on this carrier and the packets written to it are the values received from that OutgoingQueue, through a writer created by this invocation around this carrier (no state shared between carriers). O-2 token gate: turbotunnelMode is reachable only through the true edge of bytes.Equal(token, turbotunnel.Token) with token filled by a successful io.ReadFull; QueueIncoming/OutgoingQueue/Set are called from turbotunnelMode only; the carrier is closed on every path (deferred Close). O-3 address-tag integrity in the queue connection: QueueIncoming enqueues its addr parameter with its packet, ReadFrom returns P and Addr of one received element, WriteTo and OutgoingQueue use SendQueue(addr) of their parameter, and enqueued packets are private copies (shared with C17 O-4). O-4 map/heap index consistency of the client map (Swap/Push/Pop/SendQueue keep byAddr[record.Addr] = position). O-5 typed addresses: every QueueIncoming/OutgoingQueue call passes a turbotunnel.ClientID and ClientID.String() encodes the whole identifier (KCP keys sessions by the address string). O-6 one accepted connection per stream: queueConn is called once per successful AcceptStream, from acceptStreams only, and is the only sender on the accept queue. Added after the second seeding round: O-6/C01 the protocol-constant obligations of C01 including the smux keep-alive timeout against the client-map retention; a ClientID cell that is not filled by io.ReadFull is a violation; helpers of turbotunnelMode with one call site count as part of it. Added after the third seeding round: the per-session goroutine of the accept loop captures per-iteration variables only; every carrier records its address (empty included) before it is served, so a later carrier's absence of an address cannot leave an earlier one in place. Added after the fourth seeding round: O-4 no byAge[i] is read after heap.Fix/Push/Pop moved the records, and Swap re-indexes the record that ends up in each slot; O-9/C17 the queue connection reports an error only after close (a full queue reported as an error makes KCP end the session at the first gap between carriers). Added after the fifth seeding round: O-1b the QueuePacketConn a listener's KCP engine reads from is created by that call of Listen; O-9/C17 the heap.Interface methods of the client map are called by container/heap only; turbotunnelMode is found by its simple name if it became a method, its parameters by type.",
+		Explanation: "E-PROV + E-GUARD + E-OWN on the server's carrier path. O-1 one identity per carrier: in turbotunnelMode the address given to QueueIncoming, the argument of OutgoingQueue and the key of clientIDAddrMap.Set all load from one local ClientID whose only writer is io.ReadFull(conn, clientID[:]), and all are reachable only through that read's err == nil edge; the packets queued are the results of encapsulation.ReadData on this carrier and the packets written to it are the values received from that OutgoingQueue, through a writer created by this invocation around this carrier (no state shared between carriers). O-2 token gate: turbotunnelMode is reachable only through the true edge of bytes.Equal(token, turbotunnel.Token) with token filled by a successful io.ReadFull; QueueIncoming/OutgoingQueue/Set are called from turbotunnelMode only; the carrier is closed on every path (deferred Close). O-3 address-tag integrity in the queue connection: QueueIncoming enqueues its addr parameter with its packet, ReadFrom returns P and Addr of one received element, WriteTo and OutgoingQueue use SendQueue(addr) of their parameter, and enqueued packets are private copies (shared with C17 O-4). O-4 map/heap index consistency of the client map (Swap/Push/Pop/SendQueue keep byAddr[record.Addr] = position). O-5 typed addresses: every QueueIncoming/OutgoingQueue call passes a turbotunnel.ClientID and ClientID.String() encodes the whole identifier (KCP keys sessions by the address string). O-6 one accepted connection per stream: queueConn is called once per successful AcceptStream, from acceptStreams only, and is the only sender on the accept queue. Added after the second seeding round: O-6/C01 the protocol-constant obligations of C01 including the smux keep-alive timeout against the client-map retention; a ClientID cell that is not filled by io.ReadFull is a violation; helpers of turbotunnelMode with one call site count as part of it. Added after the third seeding round: the per-session goroutine of the accept loop captures per-iteration variables only; every carrier records its address (empty included) before it is served, so a later carrier's absence of an address cannot leave an earlier one in place. Added after the fourth seeding round: O-4 no byAge[i] is read after heap.Fix/Push/Pop moved the records, and Swap re-indexes the record that ends up in each slot; O-9/C17 the queue connection reports an error only after close (a full queue reported as an error makes KCP end the session at the first gap between carriers). Added after the fifth seeding round: O-1b the QueuePacketConn a listener's KCP engine reads from is created by that call of Listen; O-9/C17 the heap.Interface methods of the client map are called by container/heap only; turbotunnelMode is found by its simple name if it became a method, its parameters by type. Added after the sixth seeding round and the mutation audit: O-0b NewClientID returns only behind the err == nil edge of crypto/rand.Read; O-11/C20 the guarded-by rows of ClientMap/clientMapInner; O-12/C17 the never-block rule for sends under the map's mutex.",
 		NotDecided:  "continuity of the byte stream across carriers (KCP), the retention arithmetic (C17 O-7), packet interleaving of overlapping carriers, kcp-go's own session table.",
 		Assumptions: []string{"kcp-go keys its sessions by RemoteAddr().String()", "encapsulation.ReadData returns a fresh slice per packet"},
 	}, runC05)
@@ -22,6 +22,45 @@ func runC05(c *Ctx) {
 	srv := p.FnsIn("server/lib")
 	for _, fn := range srv {
 		c.analysedFn(p.FnName(fn))
+	}
+	// the ClientID-to-queue index is one structure for all carriers: it is read and rewritten (LastSeen, heap.Fix)
+	// under the one mutex (C20's rows), and nothing waits while holding that mutex (C17's rule)
+	{
+		var rows []guardRow
+		for _, r := range guardTable {
+			if r.Type == "ClientMap" || r.Type == "clientMapInner" {
+				rows = append(rows, r)
+			}
+		}
+		c.prefix = "O-11/C20:"
+		c.checkGuardRows("O-1 guarded-by table", rows, p.FnsIn("common/turbotunnel"))
+		c.prefix = "O-12/C17:"
+		c.checkCopyOnEnqueue(p.FnsIn("common/turbotunnel"))
+		c.prefix = ""
+	}
+	// ClientIDs are what keeps sessions apart: one is handed out only when the random source delivered it
+	if nid := p.Fn("common/turbotunnel", "NewClientID"); nid != nil {
+		ruleID := "O-0b ClientIDs are random"
+		var rd *ssa.Call
+		for _, ci := range callsIn(nid) {
+			switch calleeName(ci) {
+			case "crypto/rand.Read", "io.ReadFull":
+				rd, _ = ci.(*ssa.Call)
+			}
+		}
+		if rd == nil {
+			c.undecided(ruleID, "NewClientID reads the system's random source", p.Pos(nid.Pos()), "no crypto/rand.Read call found")
+		} else {
+			okE := errNilEdges(nid, rd, 1)
+			good := len(okE) > 0
+			var path []*ssa.BasicBlock
+			for _, r := range returnsOf(nid) {
+				if pth := reachableWithout(nid, r, okE); pth != nil {
+					good, path = false, pth
+				}
+			}
+			c.check(good, ruleID, "NewClientID returns only after a successful read of the random source", p.instrPos(rd), "every return behind err == nil", "an identifier is returned although crypto/rand failed: while that lasts every new session gets the same (all-zero) ClientID and the server treats different clients' carriers as one session", p.pathString(path)...)
+		}
 	}
 	tm := p.FnLoose("server/lib", "turbotunnelMode")
 	sh := p.Fn("server/lib", "(*httpHandler).ServeHTTP")
@@ -665,6 +704,22 @@ func (c *Ctx) checkClientMapIndex() {
 			seen[mu.Value] = true
 		}
 		c.check(ok && seen[swap.Params[1]] && seen[swap.Params[2]], rule, "Swap re-indexes both exchanged records after the exchange", p.Pos(swap.Pos()), "byAddr[byAge[i].Addr] = i; byAddr[byAge[j].Addr] = j", "after a swap byAddr no longer gives the position of a record: a later lookup returns another client's queue")
+		// and there is an exchange: slot i receives what slot j held and the other way round (without it
+		// container/heap never reorders anything: heap.Pop then removes the newest record instead of the oldest)
+		{
+			crossed := 0
+			for _, sl := range slots {
+				// the stored value is a load of the other slot
+				if u, isU := strip(sl.st.Val).(*ssa.UnOp); isU {
+					if ia, isIA := u.X.(*ssa.IndexAddr); isIA {
+						if (sl.idx == ssa.Value(swap.Params[1]) && ia.Index == ssa.Value(swap.Params[2])) || (sl.idx == ssa.Value(swap.Params[2]) && ia.Index == ssa.Value(swap.Params[1])) {
+							crossed++
+						}
+					}
+				}
+			}
+			c.check(crossed == 2, rule, "Swap exchanges the two records", p.Pos(swap.Pos()), "byAge[i] <- old byAge[j], byAge[j] <- old byAge[i]", fmt.Sprintf("%d of the 2 crossing stores found: the heap order is never established, so expiry removes other records than the oldest", crossed))
+		}
 	}
 	// Push: byAddr[record.Addr] = len(byAge) before the append
 	{
